@@ -27,12 +27,28 @@ class _MatMulAddToGemmBase(RewriteRuleClassBase, abc.ABC):
             attributes["transB"] = 1
         return op.Gemm(input_a, input_b, input_c, **attributes)
 
-    def check(self, context, input_a, input_b, **_):
+    def check(self, context, input_a, input_b, input_c, **_):
         del context  # Not used
         check_result = MatchResult()
         # Rank of input_a and input_b must be 2
         if not (_ir_utils.has_rank(input_a, 2) and _ir_utils.has_rank(input_b, 2)):
             return check_result.fail("Rank of input_a and input_b must be 2")
+        # Add broadcasts in both directions, Gemm only broadcasts C to the (M, N) result:
+        # input_c must not enlarge the result of the MatMul.
+        c_shape = input_c.shape
+        if c_shape is None or len(c_shape) > 2:
+            return check_result.fail("input_c must be unidirectionally broadcastable to (M, N)")
+        output_dims = (
+            input_a.shape[1 if self.trans_a else 0],
+            input_b.shape[0 if self.trans_b else 1],
+        )
+        for c_dim, output_dim in zip(reversed(c_shape.dims), reversed(output_dims)):
+            if isinstance(c_dim, int) and c_dim == 1:
+                continue
+            if not _ir_utils.same_dim(c_dim, output_dim):
+                return check_result.fail(
+                    "input_c must be unidirectionally broadcastable to (M, N)"
+                )
         return check_result
 
 
